@@ -138,7 +138,26 @@ func exec(h *rt.H, op string) string {
 		if s, ok := decode(w[2]); ok && (s == v3.Enabled || s == v3.Disabled || s == v3.EnabledIPIPOnly || s == v3.EnabledNoEncapOnly) {
 			bgpEff = s
 		}
-		if supported[[2]string{fcanon, bgpEff}] {
+		// absent/unrecognised on BOTH sides must behave as the (complementary) defaults
+		fUnknown := true
+		if fs, ok := decode(w[1]); ok {
+			l := strings.ToLower(fs)
+			fUnknown = l != "none"
+			for _, v := range four {
+				if l == strings.ToLower(v) {
+					fUnknown = false
+				}
+			}
+		}
+		bUnknown := true
+		if bs, ok := decode(w[2]); ok {
+			for _, v := range four {
+				if bs == v {
+					bUnknown = false
+				}
+			}
+		}
+		if supported[[2]string{fcanon, bgpEff}] || (fUnknown && bUnknown) {
 			h.Count("pair:supported")
 			if felix == bird {
 				sig := "double-programmed"
